@@ -138,6 +138,13 @@ func rewriteFile(path, rel string) error {
 	if !hasImport {
 		addImport(f, hookImport)
 	}
+	var keep []*ast.CommentGroup
+	for _, cg := range f.Comments {
+		if cg.End() < f.Package {
+			keep = append(keep, cg)
+		}
+	}
+	f.Comments = keep
 	var buf bytes.Buffer
 	if err := format.Node(&buf, fset, f); err != nil {
 		return err
@@ -248,37 +255,7 @@ func (r *rewriter) list(in []ast.Stmt) []ast.Stmt {
 	var out []ast.Stmt
 	for idx, st := range in {
 		last := idx == len(in)-1
-		// No scheduling point right in front of a select: a task parked there could find several
-		// cases ready when it resumes, and which one a select takes is the runtime's random choice,
-		// not the scheduler's (DESIGN.md section 3).
-		beforeSelect := false
-		if !last {
-			nx := in[idx+1]
-			if l, ok := nx.(*ast.LabeledStmt); ok {
-				nx = l.Stmt
-			}
-			_, beforeSelect = nx.(*ast.SelectStmt)
-		}
 		r.nested(st)
-		if beforeSelect {
-			if recv, op, ok := mutexOpStmt(st); ok && (op == "Unlock" || op == "RUnlock") {
-				_ = recv
-				out = append(out, st, r.call("Held", num(-1)))
-				continue
-			}
-			if recv, op, ok := mutexOpStmt(st); ok {
-				site := r.site(st.Pos())
-				try := "TryLock"
-				un := "Unlock"
-				if op == "RLock" {
-					try, un = "TryRLock", "RUnlock"
-				}
-				out = append(out, r.call("BeforeLockFn", method(recv, try), method(recv, un), str(site)), st, r.call("Held", num(1)))
-				continue
-			}
-			out = append(out, st)
-			continue
-		}
 		switch s := st.(type) {
 		case *ast.ExprStmt:
 			if recv, op, ok := mutexOp(s.X); ok {
@@ -342,6 +319,7 @@ func (r *rewriter) nested(st ast.Stmt) {
 		r.clauses(s.Body)
 	case *ast.SelectStmt:
 		r.clauses(s.Body)
+		prioritise(s)
 	case *ast.LabeledStmt:
 		r.nested(s.Stmt)
 	}
@@ -375,4 +353,42 @@ func (r *rewriter) clauses(b *ast.BlockStmt) {
 			cc.Body = r.list(cc.Body)
 		}
 	}
+}
+
+// prioritise makes a select deterministic. A task that was parked at a scheduling point may
+// find several cases of its next select ready, and which one a select takes is the runtime's
+// random choice, not the scheduler's. The cases are therefore polled in source order first
+// (one legal outcome of the original statement), and only if none is ready does the goroutine
+// block on all of them -- where it is woken by the first event, events being produced one at a
+// time under the simulator:
+//
+//	select { case A: a; case B: b }   ->   select { case A: a; default: select { case B: b; default: select { case A: a; case B: b } } }
+//
+// The clause bodies are shared between the copies (the printer does not mind). An unlabelled
+// break inside a body leaves the innermost select, after which nothing follows: same effect.
+func prioritise(s *ast.SelectStmt) {
+	var comm []ast.Stmt
+	var def *ast.CommClause
+	for _, c := range s.Body.List {
+		cc := c.(*ast.CommClause)
+		if cc.Comm == nil {
+			def = cc
+		} else {
+			comm = append(comm, cc)
+		}
+	}
+	if len(comm) < 2 {
+		return
+	}
+	var tail []ast.Stmt
+	if def != nil {
+		tail = def.Body
+	} else {
+		tail = []ast.Stmt{&ast.SelectStmt{Body: &ast.BlockStmt{List: append([]ast.Stmt(nil), comm...)}}}
+	}
+	for i := len(comm) - 1; i >= 0; i-- {
+		sel := &ast.SelectStmt{Body: &ast.BlockStmt{List: []ast.Stmt{comm[i], &ast.CommClause{Body: tail}}}}
+		tail = []ast.Stmt{sel}
+	}
+	s.Body.List = tail[0].(*ast.SelectStmt).Body.List
 }
